@@ -30,7 +30,7 @@ def new_fn(name, kind, refs=(), hidden=(), explicit=None, cluster="vz"):
 
 
 def random_prog(r, nmem=3, nplain=2, nvar=2, hidden_p=0.15, forms=("bare", "bare", "attr", "alias"), acyclic=True,
-                init_p=0.0, twins_p=0.0, late_p=0.0, shapes_p=0.0, factory_p=0.0, deco_p=0.0):
+                init_p=0.0, twins_p=0.0, late_p=0.0, shapes_p=0.0, factory_p=0.0, deco_p=0.0, lambdas_p=0.0):
     names = ["m%d" % i for i in range(1, nmem + 1)] + ["h%d" % i for i in range(1, nplain + 1)]
     vars_ = ["v%d" % i for i in range(1, nvar + 1)]
     nodes = []
@@ -74,6 +74,13 @@ def random_prog(r, nmem=3, nplain=2, nvar=2, hidden_p=0.15, forms=("bare", "bare
         for c in ("K1", "K2"):
             nodes.append(dict(new_fn(c + ".sm", "plain"), cls=c))
             user["refs"].append({"to": c + ".sm", "form": "bare"})
+    # two module-level lambdas used by one function
+    if r.random() < lambdas_p:
+        user = r.choice([n for n in fns if n.get("where") != "init"])
+        for i in (1, 2):
+            nodes.append(dict(new_fn("hl%d" % i, "plain"), lam=True))
+            nodes[-1]["slots"]["body"] = i
+            user["refs"].append({"to": "hl%d" % i, "form": "bare"})
     # two helpers made by one factory (one code object, different defaults), used by different functions
     if r.random() < factory_p and len(fns) >= 2:
         users = r.sample([n for n in fns if n.get("where") != "init"], 2)
@@ -130,6 +137,9 @@ def fn_source(n, twin=False, decorate=True):
     s = n["slots"]
     name = n["name"]
     lines = []
+    if n.get("lam"):            # a module-level lambda (every lambda is named "<lambda>")
+        return "%s = lambda a, d=%d: (%s, [%r, %d, 'c%d', d])[1]\n" % (
+            name, s["dflt"], "None" if twin else "log('Body', %r)" % name, name, s["body"], s["const"])
     if n["kind"] == "builtin":  # the name is bound to a builtin: nothing memento tracks
         return "%s = abs\n" % name
     if n.get("factory"):      # made by the shared factory _mk: same code object as its sibling, another default
@@ -285,6 +295,8 @@ def random_edit(r, prog, kinds=None):
     if k == "slot":
         n = r.choice(fns)
         s = r.choice(SLOTS) if not n.get("factory") else "dflt"
+        if n.get("lam"):
+            s = r.choice(["body", "const", "dflt"])
         n["slots"][s] += 1
         return {"edit": "slot", "name": n["name"], "slot": s}
     if k == "var" and vars_:
@@ -307,7 +319,7 @@ def random_edit(r, prog, kinds=None):
                 n["val"]["k%d" % len(n["val"])] = 1
             return {"edit": "var_mutate", "name": n["name"]}
     if k == "addref":
-        n = r.choice([x for x in fns if x.get("where") != "init" and not x.get("cls") and not x.get("factory")])
+        n = r.choice([x for x in fns if x.get("where") != "init" and not x.get("cls") and not x.get("factory") and not x.get("lam")])
         names = [x["name"] for x in fns if not x.get("cls") and x.get("where") != "init"]
         cands = [x for x in names if names.index(x) > names.index(n["name"]) and x not in [q["to"] for q in n["refs"]]]
         if cands:
